@@ -34,6 +34,12 @@ func (f Filter) GetSupportedMethods() []string {
 			http.MethodPut,
 			http.MethodDelete,
 			http.MethodPatch,
+			// a filter without methods accepts every method in the engine, so the
+			// remaining standard methods must be registered with the proxy as well
+			http.MethodHead,
+			http.MethodOptions,
+			http.MethodConnect,
+			http.MethodTrace,
 		}
 	}
 	return f.Method
